@@ -16,16 +16,20 @@ Definition HRel (hs : list (N * hnd)) (ss : list (N * shnd)) : Prop :=
                end.
 
 Record InvF (s : fs) (t : sworld) (gone : list path) : Prop := {
-  inv_nr : norename s;
+  inv_rw : RWf s;
   inv_fx : forall p, file_exists s p = is_file t p;
   inv_dx : forall p, dir_exists s p = is_dir t p;
-  inv_ct : forall p i, nget (names t) p = Some (EFile i) -> fcontent s p = iget (inodes t) i;
+  inv_ct : forall p i, nget (names t) p = Some (EFile i) -> fcontent s (resolve s p) = iget (inodes t) i;
   inv_fresh : forall p, mem_path p gone = false -> file_exists s p = false -> fcontent s p = [];
   inv_rm : forall p, In (PRemoveFile p) (pending s) -> mem_path p gone = true;
   inv_gone : forall p, mem_path p gone = true -> is_file t p = false;
   inv_inj : forall p q i, nget (names t) p = Some (EFile i) -> nget (names t) q = Some (EFile i) -> p = q;
   inv_bound : forall p i, nget (names t) p = Some (EFile i) -> i < next_ino t;
-  inv_pc : forall p e, nget (names t) p = Some e -> parent_is_dir t p = true
+  inv_pc : forall p e, nget (names t) p = Some e -> parent_is_dir t p = true;
+  (* pending renames: the old name is gone, the new name is a file or was unlinked again, neither is a directory *)
+  inv_rs : forall f r, In (PRename f r) (pending s) -> mem_path f gone = true;
+  inv_rt : forall f r, In (PRename f r) (pending s) -> is_file t r = true \/ mem_path r gone = true;
+  inv_rd : forall f r, In (PRename f r) (pending s) -> is_dir t f = false /\ is_dir t r = false
 }.
 
 Definition Inv (w : world) (t : sworld) (gone : list path) : Prop :=
@@ -51,71 +55,119 @@ Qed.
 
 (* ---- the invariant does not look at the handle table -------------------------------------- *)
 Lemma InvF_shs s t g l : InvF s t g -> InvF s (set_shs t l) g.
-Proof. intros [A B C D E F G H I J]. constructor; auto. Qed.
+Proof. intros [A B C D E F G H I J K L M]. constructor; auto. Qed.
 
 (* ---- same views, same invariant (sync operations) ------------------------------------------ *)
+Lemma not_src_of_file s t g p : InvF s t g -> is_file t p = true -> forall r, ~ In (PRename p r) (pending s).
+Proof.
+  intros HI Hf r Hin. apply (inv_rs _ _ _ HI) in Hin. apply (inv_gone _ _ _ HI) in Hin. congruence.
+Qed.
+
+Lemma not_tgt_fresh s t g p : InvF s t g -> mem_path p g = false -> is_file t p = false ->
+  forall f, ~ In (PRename f p) (pending s).
+Proof.
+  intros HI Hg Hf f Hin. destruct (inv_rt _ _ _ HI f p Hin); congruence.
+Qed.
+
 Lemma InvF_sameviews s s' t g :
-  InvF s t g -> norename s' ->
+  InvF s t g -> RWf s' ->
   (forall q, file_exists s' q = file_exists s q) ->
   (forall q, dir_exists s' q = dir_exists s q) ->
-  (forall q, ~ In (PRemoveFile q) (pending s) -> fcontent s' q = fcontent s q) ->
+  (forall q, ~ In (PRemoveFile q) (pending s) -> (forall r, ~ In (PRename q r) (pending s)) ->
+             fcontent s' (resolve s' q) = fcontent s (resolve s q)) ->
   (forall o, In o (pending s') -> In o (pending s)) ->
   InvF s' t g.
 Proof.
-  intros [A B C D E F G H I J] Hnr Hf Hd Hc Hp.
+  intros HI Hnr Hf Hd Hc Hp. pose proof HI as [A B C D E F G H I J K L M].
   assert (Hnorm : forall q, mem_path q g = false -> ~ In (PRemoveFile q) (pending s)).
   { intros q Hq Hin. apply F in Hin. congruence. }
+  assert (Hnsrc : forall q, mem_path q g = false -> forall r, ~ In (PRename q r) (pending s)).
+  { intros q Hq r Hin. apply K in Hin. congruence. }
   constructor; auto.
   - intro p. rewrite Hf. apply B.
   - intro p. rewrite Hd. apply C.
-  - intros p i Hn. rewrite Hc; [apply D; exact Hn|].
-    intro Hin. apply F in Hin. apply G in Hin.
-    assert (is_file t p = true) by (apply is_file_iff; eauto). congruence.
-  - intros p Hg Hx. rewrite Hc by (apply Hnorm; exact Hg). apply E; [exact Hg|]. rewrite <- Hf. exact Hx.
+  - intros p i Hn. assert (Hfp : is_file t p = true) by (apply is_file_iff; eauto).
+    assert (Hg : mem_path p g = false) by (destruct (mem_path p g) eqn:E0; [apply G in E0; congruence|reflexivity]).
+    rewrite Hc; [apply D; exact Hn|apply Hnorm; exact Hg|apply Hnsrc; exact Hg].
+  - intros p Hg Hx. rewrite Hf, B in Hx.
+    assert (R1 : resolve s p = p) by (apply resolve_other; eapply not_tgt_fresh; eauto).
+    assert (R2 : resolve s' p = p).
+    { apply resolve_other. intros f Hin. apply Hp in Hin. revert Hin. eapply not_tgt_fresh; eauto. }
+    rewrite <- R2 at 1. rewrite Hc; [|apply Hnorm; exact Hg|apply Hnsrc; exact Hg].
+    rewrite R1. apply E; [exact Hg|]. rewrite B. exact Hx.
+  - intros f r Hin. apply Hp in Hin. eapply K; eauto.
+  - intros f r Hin. apply Hp in Hin. apply (L f r Hin).
 Qed.
 
 (* ---- a data operation on an existing file --------------------------------------------------- *)
 Lemma InvF_data s s' t g p i c' :
-  InvF s t g -> nget (names t) p = Some (EFile i) -> norename s' ->
+  InvF s t g -> nget (names t) p = Some (EFile i) -> RWf s' ->
+  (forall f, ~ In (PRename f p) (pending s)) ->
   (forall q, file_exists s' q = file_exists s q) ->
   (forall q, dir_exists s' q = dir_exists s q) ->
   fcontent s' p = c' ->
   (forall q, q <> p -> fcontent s' q = fcontent s q) ->
   (forall q, In (PRemoveFile q) (pending s') -> In (PRemoveFile q) (pending s)) ->
+  (forall f r, In (PRename f r) (pending s') <-> In (PRename f r) (pending s)) ->
+  (forall q, resolve s' q = resolve s q) ->
   InvF s' (set_inode t i c') g.
 Proof.
-  intros [A B C D E F G H I J] Hn Hnr Hf Hd Hcp Hcq Hp.
+  intros HI Hn Hnr Hnt Hf Hd Hcp Hcq Hp Hren Hres. pose proof HI as [A B C D E F G H I J K L M].
+  assert (Hfp : is_file t p = true) by (apply is_file_iff; eauto).
   constructor; cbn [names inodes next_ino set_inode]; auto.
   - intro q. rewrite Hf. apply B.
   - intro q. rewrite Hd. apply C.
-  - intros q j Hq. rewrite iget_iset. destruct (N.eqb_spec i j).
-    + subst j. assert (q = p) by (eapply H; eauto). subst q. exact Hcp.
-    + rewrite Hcq; [apply D; exact Hq|]. intro Heq. subst q. congruence.
+  - intros q j Hq. rewrite iget_iset, Hres. destruct (N.eqb_spec i j).
+    + subst j. assert (q = p) by (eapply H; eauto). subst q. rewrite (resolve_other s p Hnt). exact Hcp.
+    + rewrite Hcq; [apply D; exact Hq|]. intro Heq.
+      (* resolve s q = p: q = p or p is the source of a pending rename *)
+      destruct (tgt_dec (pending s) q) as [[f Hin]|Hno].
+      * rewrite (resolve_tgt s f q (rw_nodup s A) Hin) in Heq. subst f.
+        eapply (not_src_of_file s t g p HI Hfp). exact Hin.
+      * rewrite (resolve_other s q Hno) in Heq. subst q. congruence.
   - intros q Hg Hx. rewrite Hcq; [apply E; auto; rewrite <- Hf; exact Hx|].
-    intro Heq. subst q. rewrite Hf, B in Hx.
-    assert (is_file t p = true) by (apply is_file_iff; eauto). congruence.
+    intro Heq. subst q. rewrite Hf, B in Hx. congruence.
+  - intros f r Hin. apply Hren in Hin. eapply K; eauto.
+  - intros f r Hin. apply Hren in Hin. apply (L f r Hin).
+  - intros f r Hin. apply Hren in Hin. apply (M f r Hin).
+Qed.
+
+Lemma in_push_ren s o f r : not_rename o = true ->
+  (In (PRename f r) (pending (push s o)) <-> In (PRename f r) (pending s)).
+Proof.
+  intro H. rewrite pending_push, in_app_iff. split; [|auto].
+  intros [X|[X|[]]]; [exact X|]. subst o. discriminate.
 Qed.
 
 Lemma InvF_push_data s t g p i o c' :
   InvF s t g -> nget (names t) p = Some (EFile i) -> is_data_op p o = true ->
+  (forall f, ~ In (PRename f p) (pending s)) ->
   cstep p (iget (inodes t) i) o = c' ->
   InvF (push s o) (set_inode t i c') g.
 Proof.
-  intros HI Hn Hdo Hc.
+  intros HI Hn Hdo Hnt Hc.
   assert (Hnro : not_rename o = true) by (destruct o; try reflexivity; discriminate).
+  assert (Hfp : is_file t p = true) by (apply is_file_iff; eauto).
+  assert (Hkey : forall q, q <> p -> on_key q o = false).
+  { intros q Hq. destruct o; cbn in *; try discriminate; apply path_eqb_eq in Hdo; subst; apply path_eqb_neq; congruence. }
   eapply InvF_data; eauto.
-  - apply norename_push; [apply HI|exact Hnro].
-  - intro q. rewrite file_exists_push by exact Hnro. apply (fx_step_data p). exact Hdo.
-  - intro q. rewrite dir_exists_push by exact Hnro. apply (dx_step_data p). exact Hdo.
-  - rewrite fcontent_push. rewrite (inv_ct _ _ _ HI p i Hn). exact Hc.
+  - apply RWf_push; [apply HI|exact Hnro|]. intros f r Hin. split.
+    + apply Hkey. intro; subst f. eapply (not_src_of_file s t g p HI Hfp). exact Hin.
+    + intro Hk. rewrite Hkey in Hk; [discriminate|]. intro; subst r. eapply Hnt. exact Hin.
+  - intro q. rewrite file_exists_push. apply (fx_step_data p). exact Hdo.
+  - intro q. rewrite dir_exists_push by (destruct o; try exact I; discriminate). apply (dx_step_data p). exact Hdo.
+  - rewrite fcontent_push. rewrite <- Hc. f_equal.
+    pose proof (inv_ct _ _ _ HI p i Hn) as X. rewrite (resolve_other s p Hnt) in X. exact X.
   - intros q Hq. rewrite fcontent_push. apply (cstep_other_data p); auto.
   - intros q Hin. rewrite pending_push in Hin. apply in_app_iff in Hin as [Hin|[Heq|[]]]; [exact Hin|].
     subst o. discriminate.
+  - intros f r. apply in_push_ren. exact Hnro.
+  - intro q. apply resolve_push_nr. exact Hnro.
 Qed.
 
 Lemma InvF_same_inode s t g i : InvF s t g -> InvF s (set_inode t i (iget (inodes t) i)) g.
 Proof.
-  intros [A B C D E F G H I J]. constructor; cbn [names inodes next_ino set_inode]; auto.
+  intros [A B C D E F G H I J K L M]. constructor; cbn [names inodes next_ino set_inode]; auto.
   intros q j Hq. rewrite iget_iset. destruct (N.eqb_spec i j); [subst; apply D; exact Hq|apply D; exact Hq].
 Qed.
 
@@ -124,17 +176,19 @@ Lemma InvF_sync_file s t g p : InvF s t g -> file_exists s p = true ->
   InvF (fst (sync_file s p)) t g /\ snd (sync_file s p) = None.
 Proof.
   intros HI Hex.
-  destruct (sync_file_views s p (inv_nr _ _ _ HI) Hex) as (A & B & C & D & E & F & _).
+  destruct (sync_file_views s p (inv_rw _ _ _ HI) Hex) as (A & B & C & D & E & F & _ & _ & _ & _ & _ & R).
   split; [|exact A].
   eapply InvF_sameviews; eauto.
-  intros o Ho. rewrite F in Ho. apply filter_In in Ho. tauto.
+  - intros q _ _. rewrite R. apply E.
+  - intros o Ho. rewrite F in Ho. apply filter_In in Ho. tauto.
 Qed.
 
 Lemma InvF_sync_dir s t g d : InvF s t g -> dir_exists s d = true ->
+  (forall f r, In (PRename f r) (pending s) -> child_of f d = child_of r d) ->
   InvF (fst (sync_dir s d)) t g /\ snd (sync_dir s d) = None.
 Proof.
-  intros HI Hex.
-  destruct (sync_dir_views s d (inv_nr _ _ _ HI) Hex) as (A & B & C & D & E & F & _).
+  intros HI Hex Hsd.
+  destruct (sync_dir_views s d (inv_rw _ _ _ HI) Hsd Hex) as (A & B & C & D & E & F & _).
   split; [|exact A].
   eapply InvF_sameviews; eauto.
   intros o Ho. rewrite F in Ho. apply filter_In in Ho. tauto.
@@ -161,6 +215,17 @@ Lemma is_dir_ndel t p q :
   is_dir (set_names t (ndel (names t) p)) q = if path_eqb p q then false else is_dir t q.
 Proof. unfold is_dir. cbn [names set_names]. rewrite nget_ndel. destruct (path_eqb p q); reflexivity. Qed.
 
+(* pushing an operation that is not a rename: the parts of the invariant that only look at the log *)
+Lemma RWf_push_key s t g o p : InvF s t g -> not_rename o = true ->
+  (forall q, q <> p -> on_key q o = false) ->
+  (forall f r, In (PRename f r) (pending s) -> f <> p /\ (r = p -> o = PRemoveFile r)) ->
+  RWf (push s o).
+Proof.
+  intros HI Hnr Hk Hr. apply RWf_push; [apply HI|exact Hnr|]. intros f r Hin. destruct (Hr f r Hin) as [X Y]. split.
+  - apply Hk. exact X.
+  - intro K. destruct (path_dec r p) as [E|E]; [apply Y; exact E|]. rewrite (Hk r E) in K. discriminate.
+Qed.
+
 (* creating a file at a fresh path *)
 Lemma InvF_create s t g p :
   InvF s t g -> nget (names t) p = None -> parent_is_dir t p = true -> mem_path p g = false ->
@@ -168,23 +233,28 @@ Lemma InvF_create s t g p :
        {| names := nset (names t) p (EFile (next_ino t)); inodes := iset (inodes t) (next_ino t) [];
           next_ino := next_ino t + 1; shs := shs t |} g.
 Proof.
-  intros HI Hn Hpar Hg. pose proof HI as [A B C D E F G H I J].
+  intros HI Hn Hpar Hg. pose proof HI as [A B C D E F G H I J K L M].
   assert (Hfx : file_exists s p = false) by (rewrite B; apply nget_none_iff; exact Hn).
+  assert (Hnf : is_file t p = false) by (apply nget_none_iff; exact Hn).
+  assert (Hnt : forall f, ~ In (PRename f p) (pending s)) by (eapply not_tgt_fresh; eauto).
+  assert (Hns : forall r, ~ In (PRename p r) (pending s)) by (intros r Hin; apply K in Hin; congruence).
   constructor; cbn [names inodes next_ino].
-  - apply norename_push; auto.
-  - intro q. rewrite file_exists_push by reflexivity. cbn [fx_step].
+  - apply (RWf_push_key s t g (CreateFile p) p HI eq_refl).
+    + intros q Hq. cbn. apply path_eqb_neq. congruence.
+    + intros f r Hin. split; [intro; subst f; eapply Hns; exact Hin|intro; subst r; exfalso; eapply Hnt; exact Hin].
+  - intro q. rewrite file_exists_push. cbn [fx_step].
     unfold is_file. cbn [names]. rewrite nget_nset. destruct (path_eqb p q); [reflexivity|apply B].
-  - intro q. rewrite dir_exists_push by reflexivity. cbn [dx_step].
+  - intro q. rewrite dir_exists_push by exact Logic.I. cbn [dx_step].
     unfold is_dir. cbn [names]. rewrite nget_nset. destruct (path_eqb p q) eqn:Epq; [|apply C].
     apply path_eqb_eq in Epq. subst q. rewrite C. apply nget_none_iff. exact Hn.
-  - intros q j. rewrite nget_nset, fcontent_push. cbn [cstep]. rewrite iget_iset.
+  - intros q j. rewrite nget_nset, resolve_push_nr by reflexivity. rewrite fcontent_push. cbn [cstep]. rewrite iget_iset.
     destruct (path_eqb p q) eqn:Epq.
     + apply path_eqb_eq in Epq. subst q. intro Hj. inversion Hj; subst j. rewrite N.eqb_refl.
-      apply E; auto.
+      rewrite (resolve_other s p Hnt). apply E; auto.
     + intro Hq. destruct (N.eqb_spec (next_ino t) j).
       * subst j. apply I in Hq. lia.
       * apply D. exact Hq.
-  - intros q Hq. rewrite file_exists_push by reflexivity. cbn [fx_step]. rewrite fcontent_push. cbn [cstep].
+  - intros q Hq. rewrite file_exists_push. cbn [fx_step]. rewrite fcontent_push. cbn [cstep].
     destruct (path_eqb p q); [discriminate|]. apply E. exact Hq.
   - intros q Hin. rewrite pending_push in Hin. apply in_app_iff in Hin as [Hin|[Heq|[]]]; [auto|discriminate].
   - intros q Hq. unfold is_file. cbn [names]. rewrite nget_nset. destruct (path_eqb p q) eqn:Epq.
@@ -205,6 +275,13 @@ Proof.
     unfold parent_is_dir in Hq'. destruct (parent q) as [r|] eqn:Er; [|reflexivity].
     unfold is_dir in *. cbn [names]. rewrite nget_nset. destruct (path_eqb p r) eqn:Epr; [|exact Hq'].
     apply path_eqb_eq in Epr. subst r. rewrite Hn in Hq'. discriminate.
+  - intros f r Hin. apply in_push_ren in Hin; [|reflexivity]. eapply K; eauto.
+  - intros f r Hin. apply in_push_ren in Hin; [|reflexivity]. destruct (L f r Hin) as [X|X]; [left|right; exact X].
+    unfold is_file in *. cbn [names]. rewrite nget_nset. destruct (path_eqb p r); [reflexivity|exact X].
+  - intros f r Hin. apply in_push_ren in Hin; [|reflexivity]. destruct (M f r Hin) as [X Y].
+    unfold is_dir in *. cbn [names]. rewrite !nget_nset. split.
+    + destruct (path_eqb p f); [reflexivity|exact X].
+    + destruct (path_eqb p r); [reflexivity|exact Y].
 Qed.
 
 Lemma mem_path_cons q p g : mem_path q (p :: g) = path_eqb q p || mem_path q g.
@@ -214,17 +291,21 @@ Lemma InvF_unlink s t g p i :
   InvF s t g -> nget (names t) p = Some (EFile i) ->
   InvF (push s (PRemoveFile p)) (set_names t (ndel (names t) p)) (p :: g).
 Proof.
-  intros HI Hn. pose proof HI as [A B C D E F G H I J].
+  intros HI Hn. pose proof HI as [A B C D E F G H I J K L M].
+  assert (Hfp : is_file t p = true) by (apply is_file_iff; eauto).
   constructor; cbn [names inodes next_ino set_names].
-  - apply norename_push; auto.
-  - intro q. rewrite file_exists_push by reflexivity. cbn [fx_step]. rewrite is_file_ndel. 
+  - apply (RWf_push_key s t g (PRemoveFile p) p HI eq_refl).
+    + intros q Hq. cbn. apply path_eqb_neq. congruence.
+    + intros f r Hin. split; [intro; subst f; eapply (not_src_of_file s t g p HI Hfp); exact Hin|intro; subst r; reflexivity].
+  - intro q. rewrite file_exists_push. cbn [fx_step]. rewrite is_file_ndel.
     destruct (path_eqb p q); [reflexivity|apply B].
-  - intro q. rewrite dir_exists_push by reflexivity. cbn [dx_step]. rewrite is_dir_ndel.
+  - intro q. rewrite dir_exists_push by exact Logic.I. cbn [dx_step]. rewrite is_dir_ndel.
     destruct (path_eqb p q) eqn:Epq; [|apply C]. apply path_eqb_eq in Epq. subst q.
     rewrite C. unfold is_dir. rewrite Hn. reflexivity.
-  - intros q j. rewrite nget_ndel, fcontent_push. cbn [cstep]. destruct (path_eqb p q); [discriminate|apply D].
+  - intros q j. rewrite nget_ndel, resolve_push_nr by reflexivity. rewrite fcontent_push. cbn [cstep].
+    destruct (path_eqb p q); [discriminate|apply D].
   - intros q Hq. rewrite mem_path_cons in Hq. apply orb_false_iff in Hq as [Hqp Hq].
-    rewrite file_exists_push by reflexivity. cbn [fx_step]. rewrite fcontent_push. cbn [cstep].
+    rewrite file_exists_push. cbn [fx_step]. rewrite fcontent_push. cbn [cstep].
     rewrite path_eqb_sym, Hqp. apply E. exact Hq.
   - intros q Hin. rewrite pending_push in Hin. rewrite mem_path_cons.
     apply in_app_iff in Hin as [Hin|[Heq|[]]].
@@ -239,22 +320,38 @@ Proof.
     pose proof (J q e Hq) as Hpq. unfold parent_is_dir in *. destruct (parent q) as [r|]; [|reflexivity].
     rewrite is_dir_ndel. destruct (path_eqb p r) eqn:Epr; [|exact Hpq].
     apply path_eqb_eq in Epr. subst r. unfold is_dir in Hpq. rewrite Hn in Hpq. discriminate.
+  - intros f r Hin. apply in_push_ren in Hin; [|reflexivity]. rewrite mem_path_cons, (K f r Hin). apply orb_true_r.
+  - intros f r Hin. apply in_push_ren in Hin; [|reflexivity]. rewrite is_file_ndel, mem_path_cons.
+    destruct (path_eqb p r) eqn:Epr.
+    + right. rewrite path_eqb_sym, Epr. reflexivity.
+    + destruct (L f r Hin) as [X|X]; [left; exact X|right; rewrite X; apply orb_true_r].
+  - intros f r Hin. apply in_push_ren in Hin; [|reflexivity]. destruct (M f r Hin) as [X Y]. rewrite !is_dir_ndel. split.
+    + destruct (path_eqb p f); [reflexivity|exact X].
+    + destruct (path_eqb p r); [reflexivity|exact Y].
 Qed.
 
+(* with renames pending a directory is not created at a name a file left since the last crash *)
 Lemma InvF_mkdir s t g p :
   InvF s t g -> nget (names t) p = None -> parent_is_dir t p = true ->
+  (forall f r, In (PRename f r) (pending s) -> mem_path p g = false) ->
   InvF (push s (CreateDir p)) (set_names t (nset (names t) p EDir)) g.
 Proof.
-  intros HI Hn Hpar. pose proof HI as [A B C D E F G H I J].
+  intros HI Hn Hpar Hmk. pose proof HI as [A B C D E F G H I J K L M].
+  assert (Hnf : is_file t p = false) by (apply nget_none_iff; exact Hn).
   constructor; cbn [names inodes next_ino set_names].
-  - apply norename_push; auto.
-  - intro q. rewrite file_exists_push by reflexivity. cbn [fx_step]. rewrite is_file_nset.
+  - apply (RWf_push_key s t g (CreateDir p) p HI eq_refl).
+    + intros q Hq. cbn. apply path_eqb_neq. congruence.
+    + intros f r Hin. pose proof (Hmk f r Hin) as Hg. split.
+      * intro; subst f. apply K in Hin. congruence.
+      * intro; subst r. exfalso. eapply (not_tgt_fresh s t g p HI Hg Hnf). exact Hin.
+  - intro q. rewrite file_exists_push. cbn [fx_step]. rewrite is_file_nset.
     destruct (path_eqb p q) eqn:Epq; [|apply B]. apply path_eqb_eq in Epq. subst q.
-    rewrite B. apply nget_none_iff. exact Hn.
-  - intro q. rewrite dir_exists_push by reflexivity. cbn [dx_step]. rewrite is_dir_nset.
+    rewrite B. exact Hnf.
+  - intro q. rewrite dir_exists_push by exact Logic.I. cbn [dx_step]. rewrite is_dir_nset.
     destruct (path_eqb p q); [reflexivity|apply C].
-  - intros q j. rewrite nget_nset, fcontent_push. cbn [cstep]. destruct (path_eqb p q); [discriminate|apply D].
-  - intros q Hq. rewrite file_exists_push by reflexivity. cbn [fx_step]. rewrite fcontent_push. apply E. exact Hq.
+  - intros q j. rewrite nget_nset, resolve_push_nr by reflexivity. rewrite fcontent_push. cbn [cstep].
+    destruct (path_eqb p q); [discriminate|apply D].
+  - intros q Hq. rewrite file_exists_push. cbn [fx_step]. rewrite fcontent_push. apply E. exact Hq.
   - intros q Hin. rewrite pending_push in Hin. apply in_app_iff in Hin as [Hin|[Heq|[]]]; [auto|discriminate].
   - intros q Hq. rewrite is_file_nset. destruct (path_eqb p q); [reflexivity|apply G; exact Hq].
   - intros q r j. rewrite !nget_nset. destruct (path_eqb p q); [discriminate|].
@@ -265,6 +362,15 @@ Proof.
     { destruct (path_eqb p q) eqn:Epq; [apply path_eqb_eq in Epq; subst; exact Hpar|eapply J; exact Hq]. }
     unfold parent_is_dir in *. destruct (parent q) as [r|]; [|reflexivity].
     rewrite is_dir_nset. destruct (path_eqb p r); [reflexivity|exact Hq'].
+  - intros f r Hin. apply in_push_ren in Hin; [|reflexivity]. eapply K; eauto.
+  - intros f r Hin. apply in_push_ren in Hin; [|reflexivity]. destruct (L f r Hin) as [X|X]; [left|right; exact X].
+    rewrite is_file_nset. destruct (path_eqb p r) eqn:Epr; [|exact X].
+    apply path_eqb_eq in Epr. subst r. congruence.
+  - intros f r Hin. apply in_push_ren in Hin; [|reflexivity]. pose proof (Hmk f r Hin) as Hg.
+    destruct (M f r Hin) as [X Y]. rewrite !is_dir_nset. split.
+    + destruct (path_eqb p f) eqn:Epf; [|exact X]. apply path_eqb_eq in Epf. subst f. apply K in Hin. congruence.
+    + destruct (path_eqb p r) eqn:Epr; [|exact Y]. apply path_eqb_eq in Epr. subst r. exfalso.
+      eapply (not_tgt_fresh s t g p HI Hg Hnf). exact Hin.
 Qed.
 
 Lemma nget_In : forall m p e, nget m p = Some e -> In (p, e) m.
@@ -299,33 +405,38 @@ Proof.
 Qed.
 
 Lemma has_children_inv s t g d : InvF s t g ->
+  (forall f r, In (PRename f r) (pending s) -> child_of r d = false) ->
   has_children s d = match children t d with [] => false | _ => true end.
 Proof.
-  intro HI. destruct (has_children s d) eqn:Hc.
-  - apply (has_children_iff s d (inv_nr _ _ _ HI)) in Hc as (q & Hq & Hex).
+  intros HI Hrt. pose proof (rw_nd _ (inv_rw _ _ _ HI)) as Hnd. destruct (has_children s d) eqn:Hc.
+  - apply (has_children_iff s d Hnd Hrt) in Hc as (q & Hq & Hex).
     apply (exists_inv s t g q HI) in Hex.
     assert (Hin : In q (children t d)) by (apply in_children; auto).
     destruct (children t d); [contradiction|reflexivity].
   - destruct (children t d) as [|q l] eqn:E; [reflexivity|].
     assert (Hin : In q (children t d)) by (rewrite E; left; reflexivity).
     apply in_children in Hin as [Hq Hn]. apply (exists_inv s t g q HI) in Hn.
-    assert (has_children s d = true) by (apply has_children_iff; [apply HI|eauto]). congruence.
+    assert (has_children s d = true) by (apply has_children_iff; eauto). congruence.
 Qed.
 
 Lemma InvF_rmdir s t g p :
   InvF s t g -> nget (names t) p = Some EDir -> children t p = [] ->
   InvF (push s (PRemoveDir p)) (set_names t (ndel (names t) p)) g.
 Proof.
-  intros HI Hn Hch. pose proof HI as [A B C D E F G H I J].
+  intros HI Hn Hch. pose proof HI as [A B C D E F G H I J K L M].
+  assert (Hpd : is_dir t p = true) by (apply is_dir_iff; exact Hn).
   constructor; cbn [names inodes next_ino set_names].
-  - apply norename_push; auto.
-  - intro q. rewrite file_exists_push by reflexivity. cbn [fx_step]. rewrite is_file_ndel.
+  - apply (RWf_push_key s t g (PRemoveDir p) p HI eq_refl).
+    + intros q Hq. cbn. apply path_eqb_neq. congruence.
+    + intros f r Hin. destruct (M f r Hin) as [X Y]. split; [intro; subst f; congruence|intro; subst r; congruence].
+  - intro q. rewrite file_exists_push. cbn [fx_step]. rewrite is_file_ndel.
     destruct (path_eqb p q) eqn:Epq; [|apply B]. apply path_eqb_eq in Epq. subst q.
     rewrite B. unfold is_file. rewrite Hn. reflexivity.
-  - intro q. rewrite dir_exists_push by reflexivity. cbn [dx_step]. rewrite is_dir_ndel.
+  - intro q. rewrite dir_exists_push by exact Logic.I. cbn [dx_step]. rewrite is_dir_ndel.
     destruct (path_eqb p q); [reflexivity|apply C].
-  - intros q j. rewrite nget_ndel, fcontent_push. cbn [cstep]. destruct (path_eqb p q); [discriminate|apply D].
-  - intros q Hq. rewrite file_exists_push by reflexivity. cbn [fx_step]. rewrite fcontent_push. apply E. exact Hq.
+  - intros q j. rewrite nget_ndel, resolve_push_nr by reflexivity. rewrite fcontent_push. cbn [cstep].
+    destruct (path_eqb p q); [discriminate|apply D].
+  - intros q Hq. rewrite file_exists_push. cbn [fx_step]. rewrite fcontent_push. apply E. exact Hq.
   - intros q Hin. rewrite pending_push in Hin. apply in_app_iff in Hin as [Hin|[Heq|[]]]; [auto|discriminate].
   - intros q Hq. rewrite is_file_ndel. destruct (path_eqb p q); [reflexivity|apply G; exact Hq].
   - intros q r j. rewrite !nget_ndel. destruct (path_eqb p q); [discriminate|].
@@ -338,6 +449,13 @@ Proof.
     assert (Hin : In q (children t p)).
     { apply in_children. split; [|congruence]. unfold child_of. rewrite Er. apply path_eqb_refl. }
     rewrite Hch in Hin. contradiction.
+  - intros f r Hin. apply in_push_ren in Hin; [|reflexivity]. eapply K; eauto.
+  - intros f r Hin. apply in_push_ren in Hin; [|reflexivity]. destruct (L f r Hin) as [X|X]; [left|right; exact X].
+    rewrite is_file_ndel. destruct (path_eqb p r) eqn:Epr; [|exact X].
+    apply path_eqb_eq in Epr. subst r. unfold is_file in X. rewrite Hn in X. discriminate.
+  - intros f r Hin. apply in_push_ren in Hin; [|reflexivity]. destruct (M f r Hin) as [X Y]. rewrite !is_dir_ndel. split.
+    + destruct (path_eqb p f); [reflexivity|exact X].
+    + destruct (path_eqb p r); [reflexivity|exact Y].
 Qed.
 
 (* ---- handles ------------------------------------------------------------------------------------------ *)
@@ -372,21 +490,46 @@ Qed.
 Lemma err_ok_refl e : err_ok e e = true.
 Proof. unfold err_ok. rewrite N.eqb_refl. reflexivity. Qed.
 
-(* write_at on a live handle *)
+(* write_at on a live handle (whose path is not the new name of a pending rename, unless nothing is written) *)
 Lemma write_at_refines s t g h sh off data coin :
   InvF s t g -> hrel h sh -> nget (names t) (spath sh) = Some (EFile (sino sh)) -> hw h = true ->
+  (data <> [] -> forall f, ~ In (PRename f (spath sh)) (pending s)) ->
   InvF (fst (write_at s h off data coin)) (set_inode t (sino sh) (pwrite (iget (inodes t) (sino sh)) off data)) g /\
   snd (write_at s h off data coin) = inl (length data).
 Proof.
-  intros HI (Hp & _ & _ & _ & _) Hn Hw. unfold write_at. rewrite Hw. cbn [negb fst snd]. rewrite Hp.
+  intros HI (Hp & _ & _ & _ & _) Hn Hw Hnt. unfold write_at. rewrite Hw. cbn [negb fst snd]. rewrite Hp.
   split; [|reflexivity].
   set (s1 := match data with [] => s | _ :: _ => push s (PWrite (spath sh) off data) end).
   assert (H1 : InvF s1 (set_inode t (sino sh) (pwrite (iget (inodes t) (sino sh)) off data)) g).
   { unfold s1, pwrite. destruct data as [|b data]; [apply InvF_same_inode; exact HI|].
-    eapply InvF_push_data; eauto; cbn; rewrite path_eqb_refl; reflexivity. }
+    eapply InvF_push_data; eauto; [cbn; apply path_eqb_refl|apply Hnt; discriminate|cbn; rewrite path_eqb_refl; reflexivity]. }
   destruct coin; [|exact H1].
   apply InvF_sync_file; [exact H1|].
   rewrite (inv_fx _ _ _ H1). apply is_file_iff. cbn [names set_inode]. eauto.
+Qed.
+
+(* ---- what a step must leave alone while renames are pending ------------------------------------------
+   (the complement of the known classes RenameFile (e) (f), KindSwap, and - for this development - the
+   restriction to renames within one directory) *)
+Definition quiet (s : fs) (t : sworld) (g : list path) (o : op) : Prop :=
+  match o with
+  | Open _ p _ w _ tr _ _ => tr && w = true -> forall f, ~ In (PRename f p) (pending s)
+  | Spit p _ _ => forall f, ~ In (PRename f p) (pending s)
+  | WriteAt slot _ data _ | Write slot data _ =>
+      forall h, sget (shs t) slot = Some h -> data <> [] -> forall f, ~ In (PRename f (spath h)) (pending s)
+  | SetLen slot _ _ =>
+      forall h, sget (shs t) slot = Some h -> forall f, ~ In (PRename f (spath h)) (pending s)
+  | Mkdir p => forall f r, In (PRename f r) (pending s) -> mem_path p g = false
+  | Rmdir p => forall f r, In (PRename f r) (pending s) -> child_of r p = false
+  | SyncDir p => forall f r, In (PRename f r) (pending s) -> child_of f p = child_of r p
+  | _ => True
+  end.
+
+Lemma quiet_norename s t g o : norename s -> quiet s t g o.
+Proof.
+  intro H. assert (X : forall f r, ~ In (PRename f r) (pending s)).
+  { intros f r Hin. apply (norename_in s H) in Hin. discriminate. }
+  destruct o; cbn; auto; try (intros; intro Hin; eapply X; exact Hin); try (intros f r Hin; exfalso; eapply X; exact Hin).
 Qed.
 
 (* ---- one step ------------------------------------------------------------------------------------------- *)
@@ -399,11 +542,23 @@ Proof. unfold valid_open. destruct r, w, a, tr, c, n; cbn; intros; try discrimin
 Lemma resize_0 c : resize c 0 = [].
 Proof. reflexivity. Qed.
 
+Lemma InvF_trunc s t g p i :
+  InvF s t g -> nget (names t) p = Some (EFile i) -> (forall f, ~ In (PRename f p) (pending s)) ->
+  InvF (push s (PSetLen p 0)) (set_inode t i []) g.
+Proof.
+  intros HI Hn Hnt. eapply InvF_push_data; eauto; cbn; rewrite path_eqb_refl; reflexivity.
+Qed.
+
+Lemma not_tgt_push s o p : not_rename o = true -> (forall f, ~ In (PRename f p) (pending s)) ->
+  forall f, ~ In (PRename f p) (pending (push s o)).
+Proof. intros Ho H f Hin. apply in_push_ren in Hin; [|exact Ho]. eapply H. exact Hin. Qed.
+
 Lemma step_open s hs t g slot p r w a tr c n :
   InvF s t g -> HRel hs (shs t) -> op_classes t g (Open slot p r w a tr c n) = [] ->
+  quiet s t g (Open slot p r w a tr c n) ->
   StepOk (mkWorld s hs) t g (Open slot p r w a tr c n).
 Proof.
-  intros HF HH Hcl. cbn [op_classes] in Hcl.
+  intros HF HH Hcl Hqt. cbn [op_classes] in Hcl. cbn [quiet] in Hqt.
   apply app_eq_nil in Hcl as [_ Hrc]. apply when_nil in Hrc.
   assert (Hh0 : HRel (hdel hs slot) (sdel (shs t) slot)) by (apply HRel_del; exact HH).
   unfold StepOk. cbn [step sstep gone_after wfs whs]. unfold sopen, open_file.
@@ -433,10 +588,8 @@ Proof.
       * destruct tr.
         -- cbn [wfs]. apply InvF_shs.
            change (InvF (push s (PSetLen p 0)) (set_inode (set_shs t (sdel (shs t) slot)) i []) g).
-           eapply (InvF_push_data s (set_shs t (sdel (shs t) slot)) g p i); eauto.
-           ++ apply InvF_shs. exact HF.
-           ++ cbn. apply path_eqb_refl.
-           ++ cbn. rewrite path_eqb_refl. reflexivity.
+           apply InvF_trunc; [apply InvF_shs; exact HF|exact En|].
+           apply Hqt. exact Htw.
         -- cbn [wfs]. apply InvF_shs. apply InvF_shs. exact HF.
       * cbn [whs shs set_shs set_inode]. destruct tr; cbn [shs set_shs set_inode];
           (apply HRel_set; [exact HH|repeat split]).
@@ -453,12 +606,13 @@ Proof.
            ++ set (t1 := {| names := nset (names t) p (EFile (next_ino t));
                             inodes := iset (inodes t) (next_ino t) []; next_ino := next_ino t + 1; shs := shs t |}) in *.
               assert (Hn1 : nget (names t1) p = Some (EFile (next_ino t))) by (cbn [names t1]; rewrite nget_nset, path_eqb_refl; reflexivity).
-              pose proof (InvF_push_data _ _ _ p (next_ino t) (PSetLen p 0) [] HC Hn1) as HD.
-              cbn in HD. rewrite path_eqb_refl in HD. specialize (HD eq_refl eq_refl).
-              destruct HD as [A B C0 D E F G H I J]. constructor; auto.
+              assert (Hnt1 : forall f, ~ In (PRename f p) (pending (push s (CreateFile p)))).
+              { apply not_tgt_push; [reflexivity|]. eapply not_tgt_fresh; eauto. }
+              pose proof (InvF_trunc _ _ _ p (next_ino t) HC Hn1 Hnt1) as HD.
+              destruct HD as [A B C0 D E F G H I J K L M]. constructor; auto.
               intros q j Hq. rewrite (D q j Hq). cbn [inodes set_inode t1]. rewrite !iget_iset.
               destruct (next_ino t =? j); reflexivity.
-           ++ destruct HC as [A B C0 D E F G H I J]. constructor; auto.
+           ++ destruct HC as [A B C0 D E F G H I J K L M]. constructor; auto.
         -- cbn [whs shs]. apply HRel_set; [exact HH|repeat split].
       * split; [split; [apply InvF_shs; exact HF|exact Hh0]|apply err_ok_refl].
     + assert (Hcn : (if c || n then @None fs else None) = None) by (destruct (c || n); reflexivity).
@@ -472,18 +626,18 @@ Proof. intros (A & B & C & D & E). repeat split; assumption. Qed.
 
 Lemma InvF_len s t g p i : InvF s t g -> nget (names t) p = Some (EFile i) ->
   file_len s p = length (iget (inodes t) i).
-Proof. intros HI Hn. rewrite file_len_nr by apply HI. rewrite (inv_ct _ _ _ HI p i Hn). reflexivity. Qed.
+Proof. intros HI Hn. rewrite file_len_res by apply HI. rewrite (inv_ct _ _ _ HI p i Hn). reflexivity. Qed.
 
 Lemma InvF_read s t g p i n off : InvF s t g -> nget (names t) p = Some (EFile i) ->
   read_file s p n off = firstn n (skipn off (iget (inodes t) i)).
-Proof. intros HI Hn. rewrite read_file_nr by apply HI. rewrite (inv_ct _ _ _ HI p i Hn). reflexivity. Qed.
+Proof. intros HI Hn. rewrite read_file_res by apply HI. rewrite (inv_ct _ _ _ HI p i Hn). reflexivity. Qed.
 
 Ltac noslot HH slot :=
   destruct (HRel_cases _ _ slot HH) as [[Hh Hs]|(h & sh & Hh & Hs & Hrel)];
   [rewrite Hh, Hs; split; [split; assumption|reflexivity]|].
 
 Lemma step_handle_ops s hs t g o :
-  InvF s t g -> HRel hs (shs t) -> op_classes t g o = [] ->
+  InvF s t g -> HRel hs (shs t) -> op_classes t g o = [] -> quiet s t g o ->
   match o with
   | Close _ | WriteAt _ _ _ _ | ReadAt _ _ _ | Write _ _ _ | Read _ _ | Seek _ _ _ | SetLen _ _ _
   | SyncAll _ | SyncData _ | FLen _ => True
@@ -491,8 +645,8 @@ Lemma step_handle_ops s hs t g o :
   end ->
   StepOk (mkWorld s hs) t g o.
 Proof.
-  intros HF HH Hcl Hop. unfold StepOk.
-  destruct o; try contradiction; clear Hop; cbn [op_classes] in Hcl; try apply when_nil in Hcl;
+  intros HF HH Hcl Hqt Hop. unfold StepOk.
+  destruct o; try contradiction; clear Hop; cbn [op_classes] in Hcl; try apply when_nil in Hcl; cbn [quiet] in Hqt;
     cbn [step sstep gone_after wfs whs fst snd].
   - (* Close *)
     destruct (HRel_cases _ _ slot HH) as [[Hh Hs]|(h & sh & Hh & Hs & Hrel)]; rewrite Hh, Hs; cbn [fst snd wfs whs].
@@ -503,7 +657,7 @@ Proof.
     pose proof (not_stale t slot sh Hs Hcl) as Hn.
     pose proof Hrel as (Hp & Hr & Hw & Ha & Hpos). rewrite <- Hw.
     destruct (hw h) eqn:Ehw; cbn [negb].
-    + destruct (write_at_refines s t g h sh (N.to_nat off) data coin HF Hrel Hn Ehw) as [A B].
+    + destruct (write_at_refines s t g h sh (N.to_nat off) data coin HF Hrel Hn Ehw (Hqt sh Hs)) as [A B].
       destruct (write_at s h (N.to_nat off) data coin) as [s1 [k|e]]; cbn [fst snd] in *; [|discriminate].
       inversion B; subst k. cbn [fst snd wfs whs with_fs].
       split; [split; [exact A|exact HH]|reflexivity].
@@ -525,7 +679,7 @@ Proof.
     { rewrite Ha, Hpos, Hp. rewrite (InvF_len s t g _ _ HF Hn). reflexivity. }
     rewrite Hoff. set (off := if sa sh then length (iget (inodes t) (sino sh)) else spos sh).
     destruct (hw h) eqn:Ehw; cbn [negb].
-    + destruct (write_at_refines s t g h sh off data coin HF Hrel Hn Ehw) as [A B].
+    + destruct (write_at_refines s t g h sh off data coin HF Hrel Hn Ehw (Hqt sh Hs)) as [A B].
       destruct (write_at s h off data coin) as [s1 [k|e]]; cbn [fst snd] in *; [|discriminate].
       inversion B; subst k. cbn [fst snd wfs whs].
       split; [|reflexivity]. split.
@@ -559,7 +713,7 @@ Proof.
     + split; [|reflexivity]. split; [|exact HH]. rewrite Hp.
       assert (H1 : InvF (push s (PSetLen (spath sh) (N.to_nat n)))
                         (set_inode t (sino sh) (resize (iget (inodes t) (sino sh)) (N.to_nat n))) g).
-      { eapply InvF_push_data; eauto; cbn; rewrite path_eqb_refl; reflexivity. }
+      { eapply InvF_push_data; eauto; [cbn; apply path_eqb_refl|cbn; rewrite path_eqb_refl; reflexivity]. }
       destruct coin; [|exact H1].
       apply InvF_sync_file; [exact H1|].
       rewrite (inv_fx _ _ _ H1). apply is_file_iff. cbn [names set_inode]. eauto.
@@ -589,9 +743,9 @@ Lemma listing_inv s t g d : InvF s t g -> listing s d = slisting t d.
 Proof.
   intro HI. unfold listing, slisting. apply sort_names_ext. intro x. rewrite !in_map_iff.
   split; intros (q & Hb & Hq); exists q; (split; [exact Hb|]).
-  - apply (dir_entries_iff s d q (inv_nr _ _ _ HI)) in Hq as [Hc Hex].
+  - apply (dir_entries_iff s d q (rw_nd _ (inv_rw _ _ _ HI))) in Hq as [Hc Hex].
     apply in_children. split; [exact Hc|]. apply (exists_inv s t g q HI). exact Hex.
-  - apply in_children in Hq as [Hc Hn]. apply (dir_entries_iff s d q (inv_nr _ _ _ HI)).
+  - apply in_children in Hq as [Hc Hn]. apply (dir_entries_iff s d q (rw_nd _ (inv_rw _ _ _ HI))).
     split; [exact Hc|]. apply (exists_inv s t g q HI). exact Hn.
 Qed.
 
@@ -620,7 +774,7 @@ Proof.
 Qed.
 
 Lemma step_path_ops s hs t g o :
-  InvF s t g -> HRel hs (shs t) -> op_classes t g o = [] ->
+  InvF s t g -> HRel hs (shs t) -> op_classes t g o = [] -> quiet s t g o ->
   match o with
   | SyncDir _ | Mkdir _ | Rmdir _ | Unlink _ | Rename _ _ | Stat _ | Exists _ | Readdir _ | Slurp _
   | Dump _ | Tick => True
@@ -628,13 +782,13 @@ Lemma step_path_ops s hs t g o :
   end ->
   StepOk (mkWorld s hs) t g o.
 Proof.
-  intros HF HH Hcl Hop. unfold StepOk.
-  destruct o; try contradiction; clear Hop; cbn [op_classes] in Hcl;
+  intros HF HH Hcl Hqt Hop. unfold StepOk.
+  destruct o; try contradiction; clear Hop; cbn [op_classes] in Hcl; cbn [quiet] in Hqt;
     cbn [step sstep gone_after wfs whs fst snd].
   - (* SyncDir *)
     destruct (nget (names t) p) as [[|i]|] eqn:En.
     + assert (Hd : dir_exists s p = true) by (rewrite (inv_dx _ _ _ HF); apply is_dir_iff; exact En).
-      destruct (InvF_sync_dir s t g p HF Hd) as [A B]. unfold res. rewrite B. cbn [fst snd wfs whs].
+      destruct (InvF_sync_dir s t g p HF Hd Hqt) as [A B]. unfold res. rewrite B. cbn [fst snd wfs whs].
       split; [split; assumption|reflexivity].
     + assert (Hd : dir_exists s p = false) by (rewrite (inv_dx _ _ _ HF); unfold is_dir; rewrite En; reflexivity).
       unfold sync_dir, res. rewrite Hd. cbn [negb fst snd wfs whs].
@@ -656,7 +810,7 @@ Proof.
     unfold rmdir, res. rewrite (inv_dx _ _ _ HF). unfold is_dir.
     destruct (nget (names t) p) as [[|i]|] eqn:En; cbn [negb fst snd wfs whs].
     + destruct p as [|a p]; [discriminate|].
-      rewrite (has_children_inv s t g _ HF).
+      rewrite (has_children_inv s t g _ HF Hqt).
       destruct (children t (a :: p)) eqn:Ech; cbn [fst snd wfs whs].
       * split; [split; [apply InvF_rmdir; assumption|exact HH]|reflexivity].
       * split; [split; assumption|apply err_ok_refl].
@@ -708,29 +862,32 @@ Qed.
 
 Lemma step_spit s hs t g p data coin :
   InvF s t g -> HRel hs (shs t) -> op_classes t g (Spit p data coin) = [] ->
+  quiet s t g (Spit p data coin) ->
   StepOk (mkWorld s hs) t g (Spit p data coin).
 Proof.
-  intros HF HH Hcl. cbn [op_classes] in Hcl. apply app_eq_nil in Hcl as [_ Hrc]. apply when_nil in Hrc.
+  intros HF HH Hcl Hqt. cbn [op_classes] in Hcl. apply app_eq_nil in Hcl as [_ Hrc]. apply when_nil in Hrc.
+  cbn [quiet] in Hqt.
   unfold StepOk. cbn [step sstep gone_after wfs whs]. unfold open_file.
   rewrite (inv_fx _ _ _ HF p). cbn [andb orb].
   (* what the two writes do to an existing (possibly just created) file *)
   assert (Hwr : forall s0 t0 i, InvF s0 t0 g -> nget (names t0) p = Some (EFile i) ->
+     (forall f, ~ In (PRename f p) (pending s0)) ->
      InvF (match data with
            | [] => push s0 (PSetLen p 0)
            | _ :: _ => fst (write_at (push s0 (PSetLen p 0))
                               {| hpath := p; hr := false; hw := true; ha := false; hpos := 0 |} 0 data coin)
            end) (set_inode t0 i data) g).
-  { intros s0 t0 i H0 Hn0.
-    assert (H1 : InvF (push s0 (PSetLen p 0)) (set_inode t0 i []) g).
-    { eapply InvF_push_data; eauto; cbn; rewrite path_eqb_refl; reflexivity. }
+  { intros s0 t0 i H0 Hn0 Hnt0.
+    assert (H1 : InvF (push s0 (PSetLen p 0)) (set_inode t0 i []) g) by (apply InvF_trunc; assumption).
+    assert (Hnt1 : forall f, ~ In (PRename f p) (pending (push s0 (PSetLen p 0)))) by (apply not_tgt_push; [reflexivity|exact Hnt0]).
     destruct data as [|b data]; [exact H1|].
     set (h := {| hpath := p; hr := false; hw := true; ha := false; hpos := 0 |}).
     set (sh := {| spath := p; sino := i; sr := false; sw := true; sa := false; spos := 0 |}).
     assert (Hn1 : nget (names (set_inode t0 i [])) (spath sh) = Some (EFile (sino sh))) by exact Hn0.
-    destruct (write_at_refines _ _ g h sh 0 (b :: data) coin H1 ltac:(repeat split) Hn1 eq_refl) as [A _].
+    destruct (write_at_refines _ _ g h sh 0 (b :: data) coin H1 ltac:(repeat split) Hn1 eq_refl (fun _ => Hnt1)) as [A _].
     cbn [sino sh set_inode inodes] in A. rewrite iget_iset, N.eqb_refl in A.
     unfold pwrite in A. rewrite write_bytes_nil0 in A.
-    destruct A as [A1 B C D E F G H I J]. constructor; auto.
+    destruct A as [A1 B C D E F G H I J K L M]. constructor; auto.
     intros q j Hq. rewrite (D q j Hq). cbn [inodes set_inode]. rewrite !iget_iset.
     destruct (i =? j); reflexivity. }
   destruct (nget (names t) p) as [[|i]|] eqn:En.
@@ -744,7 +901,7 @@ Proof.
     assert (Hpar : parent_is_dir t p = true) by (eapply inv_pc; eauto).
     assert (Hf : is_file t p = true) by (unfold is_file; rewrite En; reflexivity).
     rewrite Hpar, Hf. cbn [negb fst snd wfs whs with_fs].
-    specialize (Hwr s t i HF En).
+    specialize (Hwr s t i HF En Hqt).
     destruct data as [|b data]; cbn [fst snd wfs whs with_fs];
       (split; [split; [exact Hwr|exact HH]|reflexivity]).
   - (* new file *)
@@ -756,7 +913,7 @@ Proof.
       set (t1 := {| names := nset (names t) p (EFile (next_ino t));
                     inodes := iset (inodes t) (next_ino t) []; next_ino := next_ino t + 1; shs := shs t |}) in *.
       assert (Hn1 : nget (names t1) p = Some (EFile (next_ino t))) by (cbn [names t1]; rewrite nget_nset, path_eqb_refl; reflexivity).
-      specialize (Hwr _ t1 _ HC Hn1).
+      specialize (Hwr _ t1 _ HC Hn1 (not_tgt_push s (CreateFile p) p eq_refl Hqt)).
       assert (Hfin : InvF (match data with
            | [] => push (push s (CreateFile p)) (PSetLen p 0)
            | _ :: _ => fst (write_at (push (push s (CreateFile p)) (PSetLen p 0))
@@ -764,7 +921,7 @@ Proof.
            end)
            {| names := nset (names t) p (EFile (next_ino t)); inodes := iset (inodes t) (next_ino t) data;
               next_ino := next_ino t + 1; shs := shs t |} g).
-      { destruct Hwr as [A1 B C D E F G H I J]. constructor; auto.
+      { destruct Hwr as [A1 B C D E F G H I J K L M]. constructor; auto.
         intros q j Hq. rewrite (D q j Hq). cbn [inodes set_inode t1]. rewrite !iget_iset.
         destruct (next_ino t =? j); reflexivity. }
       destruct data as [|b data]; cbn [fst snd wfs whs with_fs];
@@ -772,11 +929,128 @@ Proof.
     + split; [split; assumption|apply err_ok_refl].
 Qed.
 
-(* ---- every operation of the C10 alphabet ----------------------------------------------------------- *)
-Lemma step_refines w t g o :
-  Inv w t g -> c10_op o = true -> op_classes t g o = [] -> StepOk w t g o.
+(* ---- the pending renames after a step (no invariant needed) ------------------------------------------ *)
+Lemma sync_file_rens s p f r :
+  In (PRename f r) (pending (fst (sync_file s p))) <-> In (PRename f r) (pending s).
 Proof.
-  intros [HF HH] Hop Hcl. destruct w as [s hs]. cbn [wfs whs] in *.
+  unfold sync_file. destruct (file_exists s p); cbn [negb fst]; [|reflexivity].
+  pose (mark := fun (st : fs) (_ : pop) => st).
+  change (fold_left apply_op ?l ?s0) with (fold_left (fun st o => apply_op (mark st o) o) l s0).
+  rewrite fold_apply_pending by reflexivity. cbn [pending]. rewrite filter_In. cbn. tauto.
+Qed.
+
+Lemma sync_dir_rens s p f r :
+  In (PRename f r) (pending (fst (sync_dir s p))) <->
+  In (PRename f r) (pending s) /\ (dir_exists s p = true -> child_of f p = false /\ child_of r p = false).
+Proof.
+  unfold sync_dir. destruct (dir_exists s p); cbn [negb fst].
+  - change (fold_left (fun st o => apply_op (set_synced st (mark_synced p (synced st) o)) o) ?l ?s0)
+      with (fold_left (fun st o => apply_op (sd_mark p st o) o) l s0).
+    rewrite fold_apply_pending by reflexivity. cbn [pending set_pending]. rewrite filter_In. cbn.
+    split.
+    + intros [A B]. split; [exact A|]. intros _. apply negb_true_iff, orb_false_iff in B. exact B.
+    + intros [A B]. split; [exact A|]. destruct (B eq_refl) as [-> ->]. reflexivity.
+  - split; [intro H; split; [exact H|discriminate]|tauto].
+Qed.
+
+Lemma write_at_rens s h off data coin f r :
+  In (PRename f r) (pending (fst (write_at s h off data coin))) <-> In (PRename f r) (pending s).
+Proof.
+  unfold write_at. destruct (hw h); cbn [negb fst]; [|reflexivity].
+  set (s1 := match data with [] => s | _ :: _ => push s (PWrite (hpath h) off data) end).
+  assert (H1 : In (PRename f r) (pending s1) <-> In (PRename f r) (pending s)).
+  { unfold s1. destruct data; [reflexivity|]. apply in_push_ren. reflexivity. }
+  destruct coin; [rewrite sync_file_rens|]; exact H1.
+Qed.
+
+Lemma open_file_rens s p r0 w a t c n f r :
+  In (PRename f r) (pending (fst (open_file s p r0 w a t c n))) <-> In (PRename f r) (pending s).
+Proof.
+  unfold open_file. destruct (negb (valid_open r0 w a t c n)); [reflexivity|].
+  destruct (n && file_exists s p); [reflexivity|].
+  destruct (file_exists s p).
+  - destruct (t && w); cbn [fst]; [apply in_push_ren; reflexivity|reflexivity].
+  - destruct (c || n); [|reflexivity]. destruct (dir_exists s p); [reflexivity|].
+    destruct (parent_exists s p); [|reflexivity].
+    destruct (t && w); cbn [fst]; [rewrite in_push_ren by reflexivity|]; apply in_push_ren; reflexivity.
+Qed.
+
+Definition rens_after (s : fs) (o : op) (f r : path) : Prop :=
+  match o with
+  | SyncDir p => In (PRename f r) (pending s) /\ (dir_exists s p = true -> child_of f p = false /\ child_of r p = false)
+  | Rename a b => In (PRename f r) (pending s) \/ (PRename f r = PRename a b /\ snd (rename s a b) = None)
+  | Crash _ => False
+  | _ => In (PRename f r) (pending s)
+  end.
+
+Definition plain_op (o : op) : bool := match o with MkdirAll _ | RmdirAll _ => false | _ => true end.
+
+Lemma res_fs r w : wfs (fst (res r w)) = fst r.
+Proof. unfold res. destruct (snd r); reflexivity. Qed.
+
+Lemma step_rens w o f r : plain_op o = true ->
+  In (PRename f r) (pending (wfs (fst (step w o)))) <-> rens_after (wfs w) o f r.
+Proof.
+  intro Hp. destruct o; try discriminate; cbn [step rens_after].
+  - (* Open *)
+    pose proof (open_file_rens (wfs w) p r0 w0 a t c n f r) as H.
+    destruct (open_file (wfs w) p r0 w0 a t c n) as [s1 [h|e]]; cbn [fst wfs] in *; exact H.
+  - destruct (hget (whs w) slot); reflexivity.
+  - (* WriteAt *)
+    destruct (hget (whs w) slot) as [h|]; [|reflexivity].
+    pose proof (write_at_rens (wfs w) h (N.to_nat off) data coin f r) as H.
+    destruct (write_at (wfs w) h (N.to_nat off) data coin) as [s1 [k|e]]; cbn [fst wfs with_fs] in *; exact H.
+  - destruct (hget (whs w) slot) as [h|]; [|reflexivity]. destruct (hr h); reflexivity.
+  - (* Write *)
+    destruct (hget (whs w) slot) as [h|]; [|reflexivity].
+    match goal with |- context[write_at ?s0 ?h0 ?o0 ?d0 ?c0] => pose proof (write_at_rens s0 h0 o0 d0 c0 f r) as H;
+      destruct (write_at s0 h0 o0 d0 c0) as [s1 [k|e]] end; cbn [fst wfs with_fs] in *; exact H.
+  - destruct (hget (whs w) slot) as [h|]; [|reflexivity]. destruct (hr h); reflexivity.
+  - destruct (hget (whs w) slot) as [h|]; [|reflexivity].
+    match goal with |- context[(?b + off <? 0)%Z] => destruct (b + off <? 0)%Z end; reflexivity.
+  - (* SetLen *)
+    destruct (hget (whs w) slot) as [h|]; [|reflexivity]. destruct (hw h); cbn [negb fst wfs with_fs]; [|reflexivity].
+    destruct coin; [rewrite sync_file_rens|]; apply in_push_ren; reflexivity.
+  - destruct (hget (whs w) slot) as [h|]; [|reflexivity]. rewrite res_fs. apply sync_file_rens.
+  - destruct (hget (whs w) slot) as [h|]; [|reflexivity]. rewrite res_fs. apply sync_file_rens.
+  - destruct (hget (whs w) slot); reflexivity.
+  - rewrite res_fs. apply sync_dir_rens.
+  - rewrite res_fs. unfold mkdir. destruct (negb (parent_exists (wfs w) p)); [reflexivity|].
+    destruct (dir_exists (wfs w) p || file_exists (wfs w) p); [reflexivity|]. apply in_push_ren. reflexivity.
+  - rewrite res_fs. unfold rmdir. destruct (negb (dir_exists (wfs w) p)); [reflexivity|].
+    destruct (has_children (wfs w) p); [reflexivity|]. apply in_push_ren. reflexivity.
+  - rewrite res_fs. unfold unlink. destruct (negb (file_exists (wfs w) p)); [reflexivity|]. apply in_push_ren. reflexivity.
+  - (* Rename *)
+    rewrite res_fs.
+    assert (Hpush : In (PRename f r) (pending (push (wfs w) (PRename f0 t))) <->
+                    In (PRename f r) (pending (wfs w)) \/ PRename f r = PRename f0 t).
+    { rewrite pending_push, in_app_iff. cbn. split; [intros [X|[X|[]]]; auto|intros [X|X]; auto]. }
+    unfold rename. destruct (negb (parent_exists (wfs w) t)); cbn [fst snd]; [split; [auto|intros [X|[_ X]]; [exact X|discriminate]]|].
+    destruct (file_exists (wfs w) f0).
+    + destruct (dir_exists (wfs w) t); cbn [fst snd]; [split; [auto|intros [X|[_ X]]; [exact X|discriminate]]|].
+      rewrite Hpush. split; [intros [X|X]; auto|intros [X|[X _]]; auto].
+    + destruct (dir_exists (wfs w) f0); [|cbn [fst snd]; split; [auto|intros [X|[_ X]]; [exact X|discriminate]]].
+      destruct (file_exists (wfs w) t); cbn [fst snd]; [split; [auto|intros [X|[_ X]]; [exact X|discriminate]]|].
+      destruct (dir_exists (wfs w) t && has_children (wfs w) t); cbn [fst snd]; [split; [auto|intros [X|[_ X]]; [exact X|discriminate]]|].
+      rewrite Hpush. split; [intros [X|X]; auto|intros [X|[X _]]; auto].
+  - destruct (file_exists (wfs w) p); [reflexivity|]. destruct (dir_exists (wfs w) p); reflexivity.
+  - reflexivity.
+  - destruct (dir_exists (wfs w) p); reflexivity.
+  - reflexivity.
+  - (* Spit *)
+    pose proof (open_file_rens (wfs w) p false true false true true false f r) as H.
+    destruct (open_file (wfs w) p false true false true true false) as [s1 [h|e]] eqn:Eo; cbn [fst wfs with_fs] in *; [|exact H].
+    destruct data as [|b data]; cbn [fst wfs with_fs]; [exact H|]. rewrite write_at_rens. exact H.
+  - reflexivity.
+  - cbn. tauto.
+  - reflexivity.
+Qed.
+
+(* ---- every operation of the C10 alphabet ----------------------------------------------------------- *)
+Lemma step_refines_q w t g o :
+  Inv w t g -> c10_op o = true -> op_classes t g o = [] -> quiet (wfs w) t g o -> StepOk w t g o.
+Proof.
+  intros [HF HH] Hop Hcl Hq. destruct w as [s hs]. cbn [wfs whs] in *.
   destruct o; try discriminate;
     try (apply step_handle_ops; auto; exact I);
     try (apply step_path_ops; auto; exact I).
@@ -784,10 +1058,35 @@ Proof.
   - apply step_spit; auto.
 Qed.
 
+Lemma norename_of_none s : (forall f r, ~ In (PRename f r) (pending s)) -> norename s.
+Proof.
+  intro H. apply forallb_forall. intros o Ho. destruct o; try reflexivity. exfalso. eapply H. exact Ho.
+Qed.
+
+(* without a pending rename: the classes of FsSafe exclude every successful rename of a file *)
+Lemma step_refines w t g o :
+  Inv w t g -> norename (wfs w) -> c10_op o = true -> op_classes t g o = [] ->
+  StepOk w t g o /\ norename (wfs (fst (step w o))).
+Proof.
+  intros HI Hnr Hop Hcl. split; [apply step_refines_q; auto; apply quiet_norename; exact Hnr|].
+  apply norename_of_none. intros f r Hin.
+  assert (Hnone : forall f r, ~ In (PRename f r) (pending (wfs w))).
+  { intros f' r' H. apply (norename_in _ Hnr) in H. discriminate. }
+  apply step_rens in Hin; [|destruct o; try reflexivity; discriminate].
+  destruct o; cbn [rens_after] in Hin; try (eapply Hnone; exact Hin); try discriminate.
+  - destruct Hin as [Hin _]. eapply Hnone; exact Hin.
+  - destruct Hin as [Hin|[_ Hin]]; [eapply Hnone; exact Hin|].
+    destruct HI as [HF _]. cbn [op_classes] in Hcl. apply app_eq_nil in Hcl as [_ Hcl].
+    destruct (nget (names t) f0) as [[|i]|] eqn:En; try discriminate.
+    assert (Hf : file_exists (wfs w) f0 = false) by (rewrite (inv_fx _ _ _ HF); unfold is_file; rewrite En; reflexivity).
+    assert (Hd : dir_exists (wfs w) f0 = false) by (rewrite (inv_dx _ _ _ HF); unfold is_dir; rewrite En; reflexivity).
+    unfold rename in Hin. rewrite Hf, Hd in Hin. destruct (negb (parent_exists (wfs w) t0)); discriminate.
+Qed.
+
 Lemma Inv_init b : Inv (init_world b) init_sworld [].
 Proof.
   split; [|intro slot; exact I]. constructor; cbn.
-  - reflexivity.
+  - apply RWf_norename. reflexivity.
   - intro p. unfold file_exists, is_file. cbn. destruct p; reflexivity.
   - intro p. unfold dir_exists, is_dir. cbn. destruct p; reflexivity.
   - intros p i. destruct p; discriminate.
@@ -797,19 +1096,22 @@ Proof.
   - intros p q i. destruct p; discriminate.
   - intros p i. destruct p; discriminate.
   - intros p e H. unfold parent_is_dir. destruct p as [|a p]; [reflexivity|discriminate].
+  - intros f r [].
+  - intros f r [].
+  - intros f r [].
 Qed.
 
 Lemma run_refines : forall l w t g,
-  Inv w t g -> forallb c10_op l = true -> classes_from t g l = [] ->
+  Inv w t g -> norename (wfs w) -> forallb c10_op l = true -> classes_from t g l = [] ->
   Forall2 obs_ok (snd (srun t l)) (snd (run w l)).
 Proof.
-  induction l as [|o l IH]; intros w t g HI Hal Hcl; cbn [srun run].
+  induction l as [|o l IH]; intros w t g HI Hnr Hal Hcl; cbn [srun run].
   - constructor.
   - cbn in Hal. apply andb_true_iff in Hal as [Ho Hal].
     cbn [classes_from] in Hcl. apply app_eq_nil in Hcl as [Hc1 Hc2].
-    destruct (step_refines w t g o HI Ho Hc1) as [HI' Hobs].
+    destruct (step_refines w t g o HI Hnr Ho Hc1) as [[HI' Hobs] Hnr'].
     destruct (sstep t o) as [t1 y] eqn:Es. destruct (step w o) as [w1 x] eqn:Ew. cbn [fst snd] in *.
-    specialize (IH w1 t1 _ HI' Hal Hc2).
+    specialize (IH w1 t1 _ HI' Hnr' Hal Hc2).
     destruct (srun t1 l) as [t2 ys]. destruct (run w1 l) as [w2 xs]. cbn [fst snd] in *.
     constructor; assumption.
 Qed.
@@ -818,6 +1120,112 @@ Theorem refines_lemma : forall l,
   forallb c10_op l = true -> known_free l = true ->
   Forall2 obs_ok (snd (srun init_sworld l)) (snd (run (init_world 0) l)).
 Proof.
-  intros l Hal Hk. apply (run_refines l _ _ [] (Inv_init 0) Hal).
+  intros l Hal Hk. apply (run_refines l _ _ [] (Inv_init 0) eq_refl Hal).
   unfold known_free, classes in Hk. destruct (classes_from init_sworld [] l); [reflexivity|discriminate].
+Qed.
+
+(* ---- a clean rename of a regular file ----------------------------------------------------------------- *)
+Lemma InvF_rename s t g f r i :
+  InvF s t g -> nget (names t) f = Some (EFile i) -> f <> r -> parent_is_dir t r = true ->
+  is_dir t r = false -> mem_path r g = false ->
+  ~ In f (rnames (pending s)) -> ~ In r (rnames (pending s)) ->
+  (forall o, In o (pending s) -> on_key f o = true -> o = CreateFile f) ->
+  (forall o, In o (pending s) -> on_key r o = true -> o = CreateFile r \/ o = CreateDir r \/ o = PRemoveDir r) ->
+  mem_path f (pdirs s) = false ->
+  InvF (push s (PRename f r)) (set_names t (nset (ndel (names t) f) r (EFile i))) (f :: g).
+Proof.
+  intros HI Hn Hne Hpar Hrd Hrg Hfn Hrn Kf Kr Hfd. pose proof HI as [A B C D E F G H I J K L M].
+  assert (Hff : is_file t f = true) by (apply is_file_iff; eauto).
+  assert (Hfe : file_exists s f = true) by (rewrite B; exact Hff).
+  assert (Hw' : RWf (push s (PRename f r))).
+  { apply RWf_push_rename; auto.
+    destruct (file_exists_src s f Hfe) as [X|[X|[f' X]]]; [left; exact X|right; exact X|].
+    exfalso. apply Hfn. apply (rnames_in _ _ _ X). }
+  assert (Hnew : forall q, nget (nset (ndel (names t) f) r (EFile i)) q =
+            if path_eqb r q then Some (EFile i) else if path_eqb f q then None else nget (names t) q).
+  { intro q. rewrite nget_nset, nget_ndel. reflexivity. }
+  assert (Hdir : forall q, is_dir (set_names t (nset (ndel (names t) f) r (EFile i))) q = is_dir t q).
+  { intro q. unfold is_dir. cbn [names set_names]. rewrite Hnew.
+    destruct (path_eqb r q) eqn:E1; [apply path_eqb_eq in E1; subst q; unfold is_dir in Hrd; destruct (nget (names t) r) as [[|?]|]; congruence|].
+    destruct (path_eqb f q) eqn:E2; [apply path_eqb_eq in E2; subst q; rewrite Hn; reflexivity|reflexivity]. }
+  assert (Hfile : forall q, is_file (set_names t (nset (ndel (names t) f) r (EFile i))) q =
+            if path_eqb f q then false else if path_eqb r q then true else is_file t q).
+  { intro q. unfold is_file. cbn [names set_names]. rewrite Hnew.
+    destruct (path_eqb f q) eqn:E2; destruct (path_eqb r q) eqn:E1; try reflexivity.
+    apply path_eqb_eq in E1, E2. congruence. }
+  constructor; cbn [names inodes next_ino set_names].
+  - exact Hw'.
+  - intro q. rewrite file_exists_push, Hfile. cbn [fx_step]. rewrite B. reflexivity.
+  - intro q. rewrite dir_exists_push by exact Hfd. cbn [dx_step]. rewrite Hdir. apply C.
+  - intros q j. rewrite Hnew, resolve_push_ren, fcontent_push. cbn [cstep].
+    destruct (path_eqb r q) eqn:E1.
+    + intro Hj. inversion Hj; subst j. rewrite (resolve_other s f (not_tgt_of_rnames _ _ Hfn)).
+      rewrite <- (resolve_other s f (not_tgt_of_rnames _ _ Hfn)) at 1. apply D. exact Hn.
+    + destruct (path_eqb f q) eqn:E2; [discriminate|]. apply D.
+  - intros q Hq. rewrite mem_path_cons in Hq. apply orb_false_iff in Hq as [Hqf Hq].
+    rewrite file_exists_push, fcontent_push. cbn [fx_step cstep]. rewrite path_eqb_sym, Hqf.
+    destruct (path_eqb r q); [discriminate|]. apply E. exact Hq.
+  - intros q Hin. rewrite pending_push in Hin. apply in_app_iff in Hin as [Hin|[Heq|[]]]; [|discriminate].
+    rewrite mem_path_cons, (F q Hin). apply orb_true_r.
+  - intros q Hq. rewrite Hfile. destruct (path_eqb f q) eqn:E2; [reflexivity|].
+    rewrite mem_path_cons, path_eqb_sym, E2 in Hq. cbn in Hq.
+    destruct (path_eqb r q) eqn:E1; [apply path_eqb_eq in E1; subst q; congruence|apply G; exact Hq].
+  - intros p q j. rewrite !Hnew.
+    destruct (path_eqb r p) eqn:P1; destruct (path_eqb r q) eqn:Q1.
+    + apply path_eqb_eq in P1, Q1. congruence.
+    + intros Hj. inversion Hj; subst j. destruct (path_eqb f q) eqn:Q2; [discriminate|]. intro Hq.
+      assert (f = q) by (eapply H; eauto). subst q. rewrite path_eqb_refl in Q2. discriminate.
+    + intros Hp Hj. inversion Hj; subst j. destruct (path_eqb f p) eqn:P2; [discriminate|].
+      assert (f = p) by (eapply H; eauto). subst p. rewrite path_eqb_refl in P2. discriminate.
+    + destruct (path_eqb f p); [discriminate|]. destruct (path_eqb f q); [discriminate|]. apply H.
+  - intros q j. rewrite Hnew. destruct (path_eqb r q); [intro Hj; inversion Hj; subst; eapply I; eauto|].
+    destruct (path_eqb f q); [discriminate|apply I].
+  - intros q e. rewrite Hnew. intro Hq.
+    assert (Hq' : parent_is_dir t q = true).
+    { destruct (path_eqb r q) eqn:E1; [apply path_eqb_eq in E1; subst; exact Hpar|].
+      destruct (path_eqb f q); [discriminate|eapply J; exact Hq]. }
+    unfold parent_is_dir in *. destruct (parent q); [|reflexivity]. rewrite Hdir. exact Hq'.
+  - intros f' r' Hin. rewrite pending_push in Hin. rewrite mem_path_cons.
+    apply in_app_iff in Hin as [Hin|[Heq|[]]]; [rewrite (K f' r' Hin); apply orb_true_r|].
+    inversion Heq; subst. rewrite path_eqb_refl. reflexivity.
+  - intros f' r' Hin. rewrite pending_push in Hin. rewrite Hfile, mem_path_cons.
+    apply in_app_iff in Hin as [Hin|[Heq|[]]].
+    + destruct (rnames_in _ _ _ Hin) as [_ Y].
+      destruct (path_eqb f r') eqn:E2; [apply path_eqb_eq in E2; subst r'; contradiction|].
+      destruct (path_eqb r r') eqn:E1; [left; reflexivity|].
+      destruct (L f' r' Hin) as [X|X]; [left; exact X|right; rewrite X; apply orb_true_r].
+    + inversion Heq; subst f' r'. left. destruct (path_eqb f r) eqn:Efr; [apply path_eqb_eq in Efr; congruence|].
+      rewrite path_eqb_refl. reflexivity.
+  - intros f' r' Hin. rewrite pending_push in Hin. rewrite !Hdir.
+    apply in_app_iff in Hin as [Hin|[Heq|[]]]; [apply (M f' r' Hin)|].
+    inversion Heq; subst f' r'. split; [unfold is_dir; rewrite Hn; reflexivity|exact Hrd].
+Qed.
+
+Lemma step_rename_file s hs t g f r i :
+  InvF s t g -> HRel hs (shs t) -> nget (names t) f = Some (EFile i) -> f <> r ->
+  is_root f = false -> is_root r = false ->
+  (rename_ok t f r = true ->
+     mem_path r g = false /\ ~ In f (rnames (pending s)) /\ ~ In r (rnames (pending s)) /\
+     (forall o, In o (pending s) -> on_key f o = true -> o = CreateFile f) /\
+     (forall o, In o (pending s) -> on_key r o = true -> o = CreateFile r \/ o = CreateDir r \/ o = PRemoveDir r) /\
+     mem_path f (pdirs s) = false) ->
+  StepOk (mkWorld s hs) t g (Rename f r).
+Proof.
+  intros HF HH Hn Hne Hrf Hrr Hok. unfold StepOk. cbn [step sstep gone_after wfs whs fst snd].
+  rewrite Hn. unfold rename_ok in *. unfold srename in *.
+  destruct f as [|a f]; [discriminate|]. destruct r as [|b r]; [discriminate|]. rewrite Hn in *.
+  assert (Hfe : file_exists s (a :: f) = true) by (rewrite (inv_fx _ _ _ HF); apply is_file_iff; eauto).
+  unfold rename, res. rewrite (parent_exists_inv s t g _ HF), Hfe, (inv_dx _ _ _ HF).
+  destruct (parent_is_dir t (b :: r)) eqn:Hpar; cbn [negb fst snd wfs whs] in *.
+  - unfold is_dir. destruct (nget (names t) (b :: r)) as [[|j]|] eqn:Er; cbn [fst snd wfs whs] in *.
+    + split; [split; assumption|apply err_ok_refl].
+    + destruct (path_eqb (a :: f) (b :: r)) eqn:E; [apply path_eqb_eq in E; congruence|]. cbn [fst snd] in *.
+      destruct (Hok eq_refl) as (K1 & K2 & K3 & K4 & K5 & K6).
+      split; [split; [|exact HH]|reflexivity].
+      apply InvF_rename; auto. unfold is_dir. rewrite Er. reflexivity.
+    + destruct (path_eqb (a :: f) (b :: r)) eqn:E; [apply path_eqb_eq in E; congruence|]. cbn [fst snd] in *.
+      destruct (Hok eq_refl) as (K1 & K2 & K3 & K4 & K5 & K6).
+      split; [split; [|exact HH]|reflexivity].
+      apply InvF_rename; auto. unfold is_dir. rewrite Er. reflexivity.
+  - split; [split; assumption|apply err_ok_refl].
 Qed.
